@@ -215,8 +215,11 @@ class _Ctx:
                         raise Unsupported("tagged records")
                     fs.nullable = True
                     fs.default = None
-                if tag is not None and def_nullable and raw_default != "null":
-                    raise Unsupported("tagged nullable field without default null")
+                if tag is not None and def_nullable and raw_default is None:
+                    # (without any default the generated `T | None` field has no default and kio cannot derive one)
+                    raise Unsupported("tagged nullable field without default")
+                if tag is not None and def_nullable and raw_default != "null" and ktype != "string":
+                    raise Unsupported("tagged nullable non-string field with a non-null default (the generator has no spelling for bytes defaults)")
                 if tag is not None and ktype == "records":
                     raise Unsupported("tagged records")
                 if tag is not None and ktype == "uuid" and not ignorable:
@@ -247,9 +250,12 @@ class _Ctx:
             fs.default = None
         elif raw_default is not None:
             raise Unsupported("struct default")
-        if tag is not None and def_nullable:
-            raise Unsupported("tagged nullable struct (not attested)")
-        if tag is not None and not array:
+        if tag is not None and def_nullable and (array or raw_default != "null"):
+            # a tagged nullable struct with default null is a recombination of attested constructs (tagged struct, nullable struct,
+            # tagged nullable string with default null) and the generator emits `T | None = None` for it; nullable tagged struct
+            # *arrays* and a tagged nullable struct without default have no derivable default in kio
+            raise Unsupported("tagged nullable struct array / tagged nullable struct without default null")
+        if tag is not None and not array and not def_nullable:
             why = _unresolvable(sub)
             if why:
                 raise Unsupported("tagged struct without a resolvable default: " + why)
